@@ -177,7 +177,7 @@ def classify_guard(cond, err_polarity, tree_order, b, prog):
         neg = [a for a, v in atoms.items() if v == -1]
         shape_ok = (len(atoms) == 3 and len(pos) == 1 and len(neg) == 2 and pos[0][0] == "call"
                     and pos[0][1] == "llfree::lower::Lower::frames"
-                    and any(a[0] == "pow2" for a in neg) and any(a[0] == "f" and a[1] == ("p", "frame") for a in neg))
+                    and any(a == ("pow2", ("f", ("p", "request"), "order")) for a in neg) and any(a[0] == "f" and a[1] == ("p", "frame") for a in neg))
         if not shape_ok:
             # an atom that depends on the order but is not 2^order: the block length is wrong
             odd = [a for a in atoms if a[0] != "pow2" and any(isinstance(x, tuple) and x and x[0] == "f" and x[-1] == "order"
@@ -194,9 +194,12 @@ def classify_guard(cond, err_polarity, tree_order, b, prog):
             return ("align", None, T.show(cond))
         if T.mentions_call(cond, "usize::is_multiple_of") and cond[0] == "call":
             a0, a1 = cond[2]
-            good = T.mentions_param(a0, "frame") and T.linear(a1) is not None and any(
-                k[0] == "pow2" for k in T.linear(a1)[0]) and T.linear(a1)[1] == 0
-            return ("align", bool(good) and err_polarity is False, "error iff frame is not a multiple of 2^order")
+            la = T.linear(a1)
+            ORDER = ("pow2", ("f", ("p", "request"), "order"))
+            good = T.mentions_param(a0, "frame") and la is not None and la[1] == 0 and la[0] == {ORDER: 1}
+            return ("align", bool(good) and err_polarity is False,
+                    "error iff frame is not a multiple of 2^order" if good else
+                    "the alignment unit is %s, not 2^request.order: blocks of some orders are accepted at misaligned frames" % T.show(a1)[:60])
         return ("align", None, T.show(cond))
     if mentions_order and not mentions_frame:
         if cmp_ is None:
